@@ -57,6 +57,7 @@ fn base(name: &str, cons: Cons, cands: &[Cand]) -> Prog {
         stale: false,
         inval: false,
         obs_d: false,
+        via: false,
     }
 }
 
@@ -114,6 +115,37 @@ pub fn programs(family: &str, tier: Tier) -> Vec<Prog> {
         p.add_first = false;
         p.pin_driver = true;
         p.obs_d = true;
+        out.push(p);
+    }
+    if family == "via" || family == "all" {
+        // the expert node is needed only through a regular bind that can switch away from it in mid-stabilise, after
+        // the driver has already changed the dependencies / called make_stale (after seed C14-e)
+        let mut p = base("join/at-via", Cons::Join, &[A, T]);
+        p.toggles = vec![1];
+        p.via = true;
+        out.push(p);
+        let mut p = base("sum/at-via-stale", Cons::Sum, &[A, T]);
+        p.max_mult = 1;
+        p.toggles = vec![0];
+        p.stale = true;
+        p.via = true;
+        p.init = vec![1, 1];
+        out.push(p);
+        let mut p = base("sum/at-via", Cons::Sum, &[A, T]);
+        p.max_mult = 1;
+        p.toggles = vec![1];
+        p.via = true;
+        p.init = vec![1, 0];
+        out.push(p);
+        let mut p = base("bind/atf-via", Cons::Bind, &[A, T, Fresh]);
+        p.toggles = vec![0];
+        p.via = true;
+        out.push(p);
+        let mut p = base("sum/at-via-dup+d", Cons::Sum, &[A, T]);
+        p.toggles = vec![];
+        p.via = true;
+        p.obs_d = true;
+        p.init = vec![0, 1];
         out.push(p);
     }
     if wide {
